@@ -20,7 +20,7 @@ theorem eval_range (b : Board) (h : MaterialBounded b) : -32767 â‰¤ b.evaluate â
 /-- the start position satisfies the hypothesis (non-vacuity) -/
 example : MaterialBounded Board.start := by decide +kernel
 
-/-- 40 white queens against a bare board: `evaluate` saturates at 32767 but the swapped twin gives âˆ’32768 -/
+/-- 36 white queens and a rook against a bare board (32900 cp): `evaluate` saturates at 32767 but the swapped twin gives âˆ’32768 -/
 theorem saturation_breaks_antisymmetry :
     âˆƒ b : Board, (swapTurn b).evaluate â‰  - b.evaluate := saturation_witness
 
